@@ -7,9 +7,9 @@ VERIF = os.path.dirname(os.path.dirname(os.path.abspath(__file__)))
 class Rule:
     def __init__(self, ctx, name, desc, floor=0):
         self.ctx = ctx
-        self.name = name
+        self.name = name + getattr(ctx, "suffix", "")
         self.desc = desc
-        self.floor = floor
+        self.floor = 0 if getattr(ctx, "floor_off", False) else floor
         self.obligations = 0
         self.discharged = 0
         self.samples = []
@@ -68,6 +68,8 @@ class Ctx:
         self.extra = {}
         self.assumptions = []
         self.write = True
+        self.suffix = ""
+        self.floor_off = False
 
     def rule(self, name, desc, floor=0):
         r = Rule(self, name, desc, floor)
